@@ -156,7 +156,7 @@ func TestCheck(t *testing.T) {
 				}
 				width := 8 * model.CRCLen(typ)
 				for start := s.Start; start < s.End; start++ {
-					if !exhaustiveBits && start > 4096 && rng.Intn(16) != 0 {
+					if !exhaustiveBits && start > 4096 && rng.Intn(128) != 0 { // 64 KiB payloads: one start in 128 beyond the first 4 KiB
 						continue
 					}
 					for p := 0; p < patterns; p++ {
